@@ -267,6 +267,38 @@ def cases(ctx, scale):
         for j in range(max(1, int(n * scale))):
             yield gen_case(rng, K, regimes[j % len(regimes)])
     yield from grid_cases(int(6 * scale))
+    yield from wide_dominant_cases(rng, max(6, int(8 * scale)))
+
+
+def wide_dominant_cases(rng, n):
+    """a very wide node after a few thousand visits: one move holds most of the prior and the best
+    value, thousands of others share the rest (a long tail of tiny weights whose float32 sum carries
+    the largest rounding error the solver ever sees)"""
+    import torch
+
+    for j in range(n):
+        K = rng.choice([2000, 2000, 3000, 4572])
+        top = rng.choice([0.9, 0.9, 0.8, 0.95])
+        tail = torch.rand(K - 1, dtype=torch.float64, generator=torch.Generator().manual_seed(rng.randrange(1 << 30))) + 0.05
+        tail = tail / tail.sum() * (1 - top)
+        best = rng.randrange(K)
+        pi64 = torch.cat([tail[:best], torch.tensor([top], dtype=torch.float64), tail[best:]])
+        pi = pi64.to(torch.float32)
+        pi /= pi.sum()
+        qv = [-0.6] * K
+        qv[best] = rng.choice([0.8, 0.8, 0.5, 1.0])
+        C, N = rng.choice([1.0, 1.0, 4.0]), rng.randrange(3000, 4100)
+        lam = f32(C * math.sqrt(N) / (N + K))
+        yield {"label": "widedominant|nvis1|wide-dominant", "lam": lam, "pi": tensor_hex(pi), "q": tensor_hex(torch.tensor(qv)), "K": K, "C": C, "N": N}
+    # the same node as its visit count grows (a sweep over N: whatever happens only for some multipliers)
+    K = 2000
+    pi = torch.full((K,), 0.1 / (K - 1))
+    pi[0] = 0.9
+    q = torch.full((K,), -0.6)
+    q[0] = 0.8
+    n0 = rng.randrange(3000, 3025)
+    for N in range(n0, 4000, 25 if n >= 10 else 50):
+        yield {"label": "widedominant|nvis1|wide-dominant-sweep", "lam": f32(math.sqrt(N) / (N + K)), "pi": tensor_hex(pi), "q": tensor_hex(q), "K": K, "C": 1.0, "N": N}
 
 
 def grid_cases(nlam):
